@@ -2,7 +2,7 @@
 C20 - Results do not depend on what the process did before.
 
 Explicit-state exploration over REAL process histories.  A state is a live interpreter; a transition executes one
-library operation on its own design (17-operation alphabet: designs of the probe's scale, 1000x larger and 1000x
+library operation on its own design (18-operation alphabet: designs of the probe's scale, 1000x larger and 1000x
 smaller, accepted and rejected inputs, every tool that keeps module-level state).  Every history up to the depth bound
 is executed in a freshly forked interpreter; in the reached state one forked child per probe runs the probed operation
 and reports a canonical digest of its observable result; the same probes forked from the pristine interpreter give the
@@ -25,7 +25,7 @@ PRELOAD = ['frame.geometry.geometry', 'frame.netlist.netlist', 'frame.die.die', 
            'tools.legalfloor.legalfloor', 'tools.force.fruchterman_reingold', 'tools.spectral.spectral',
            'tools.floorset_parser.floor_set_manager.strop', 'tools.floorset_parser.floor_set_manager.utils.utils',
            'tools.glbfloor.optimization', 'tools.netgen.netgen', 'numpy']
-RULE = ("all operation sequences of length <= 2 (quick) / <= 3 (thorough) over a 17-operation alphabet, each executed in a fresh interpreter forked from a pristine "
+RULE = ("all operation sequences of length <= 2 (quick) / <= 3 (thorough) over an 18-operation alphabet, each executed in a fresh interpreter forked from a pristine "
         "(imports only) process; after each history every one of 13 probes is run in its own forked child and its canonical digest compared with the digest of the "
         "same probe forked from the pristine interpreter. states = distinct fingerprints of module-level mutable state reached; transitions = operations executed; "
         "traces validated = (history, probe) pairs compared.")
@@ -33,7 +33,7 @@ ASSUMPTIONS = ["history designs are within a factor of 1000 of the probed design
                "digests compare observable results: verdicts, regions/cells/roles rounded to 1e-9 of the design scale, projected model sets of encodings (auxiliary variable "
                "names are history-dependent by design), equation verdict vectors",
                "a probe that raises is digested as its exception type (so 'raises after a history but not alone' is a difference)"]
-BOUNDS = {'quick': 'depth 2: 1 + 17 + 289 histories x 13 probes', 'thorough': 'depth 3: 5220 histories x 13 probes'}
+BOUNDS = {'quick': 'depth 2: 1 + 18 + 324 histories x 13 probes', 'thorough': 'depth 3: 6175 histories x 13 probes'}
 MC_NOTE = ("the explored object is the real interpreter process; no model is involved: every history is executed, every probe runs on the state it reached")
 TECHNIQUE = "explicit-state exploration of real process histories (fork per history and per probe), invariant: probe digest equals the fresh-interpreter digest"
 
@@ -99,6 +99,18 @@ def op_die(scale=1.0, variant=1, with_netlist=True, terminals=True):
     n = op_netlist(scale, variant, terminals) if with_netlist else None
     d = Die(die_doc(scale, variant), n)
     d.split_refinable_regions(1.5, 6)
+    d.floorplanning_rectangles()
+    return d
+
+
+def corner_die_doc(w, h):
+    """a 6x4 die with one obstacle of size w x h in its upper-right corner: the same cell pattern for every (w, h)"""
+    return {'width': 6, 'height': 4, 'regions': [[6 - w / 2, 4 - h / 2, w, h, '#']]}
+
+
+def op_die_pattern():
+    from frame.die.die import Die
+    d = Die(corner_die_doc(2, 2))
     d.floorplanning_rectangles()
     return d
 
@@ -271,6 +283,7 @@ OPS = {
     'rect': lambda: op_rect(1),
     'glbfloor': lambda: op_glb(1),
     'misc_writers': lambda: op_misc(1),
+    'die_pattern': op_die_pattern,
 }
 
 
@@ -337,6 +350,9 @@ def probe_die():
         out.append(dg_die(d, 0.3))
     d = Die(die_doc(1.0, 3), op_netlist(1.0, 3))
     out.append(dg_die(d, 4.0))
+    # the same cell pattern as the 'die_pattern' operation, other proportions (the largest-first cover differs)
+    for (w, h) in ((5, 1), (1, 3), (3, 3)):
+        out.append(dg_die(Die(corner_die_doc(w, h)), 6.0))
     return out
 
 
@@ -414,8 +430,13 @@ def probe_legal():
     with quiet():
         ml, al, xl, yl, wl, hl, hyper, og = lf.netlist_to_utils(n)
         model = lf.Model(ml, al, xl, yl, wl, hl, 8.0, 8.0, hyper, 2.0, og, 0.9, 0.3, 1.0, None)
+        structure = [sorted((g, len(v)) for g, v in model.gekko.constraints.items()), len(model.gekko.variable_list),
+                     sorted(v.data['name'] for v in model.gekko.variable_list)[:6], r9(model.time.evaluate()), r9(lf.get_epsilon())]
+        model.time_advance(2)
+        structure += [r9(model.time.evaluate()), r9(lf.get_epsilon()),
+                      [r9(e.rhs.evaluate()) for e in model.gekko.constraints.get('Exact Value', [])]]
         model.time.assign(1000)
-        verdicts = []
+        verdicts = [structure]
         for group in sorted(model.gekko.constraints):
             if group in ('radius', 'Exact Value'):
                 continue
